@@ -13,9 +13,9 @@
   functions `encScalarBin`, `encScalarAscii`, `decScalarBin` (scalar readers) and `Built.readAscii` equal to the regenerated
   tables: a changed branch (Float written with `Float64bits`, Int read without `int32(·)`, a dropped clamp, another
   divisor, another `ParseFloat` bit size, a type moved to another `case`) breaks a named theorem or the extractor before any
-  sample runs.  Covered: the Vector1 (scalar property) writer and reader, binary and ASCII; the 3- and 4-vector writers
-  (binary and ASCII, `fallthrough` included) and binary readers.  NOT covered (listed in notes/C04.md): the ASCII 3- /
-  4-vector readers, the 2-vector writer and readers, the list readers.  (Core Lean only.)
+  sample runs.  Covered: the Vector1 (scalar property) writer and reader, binary and ASCII; the 2-, 3- and 4-vector
+  writers (binary and ASCII, `fallthrough` included) and binary readers.  NOT covered (listed in notes/C04.md): the ASCII
+  2- / 3- / 4-vector readers, the list readers.  (Core Lean only.)
 -/
 import PolyVerif.Model.Ply
 import PolyVerif.Gen.PlyValues
@@ -39,7 +39,7 @@ def binStore (c : Coding α) (e : Endian) (v : α) : String × String → Option
   | ("put32", "(uint32 v)") => some (put32 e (c.i32 v))
   | ("put32", "(math.Float32bits (float32 v))") => some (put32 e (c.f32 v))
   | ("put64", "(math.Float64bits v)") => some (put64 e (c.f64 v))
-  -- 3- / 4-vector writers: the vector-library chain `.Clamp(0, 1).Scale(255).RoundToInt()` / `.ToFloat32()`, componentwise
+  -- 2- / 3- / 4-vector writers: the vector-library chain `.Clamp(0, 1).Scale(255).RoundToInt()` / `.ToFloat32()`, componentwise
   | ("store8", "(byte (RoundToInt (Scale 255 (Clamp 0 1 v))))") => some [c.u8 v]
   | ("put32", "(math.Float32bits (ToFloat32 v))") => some (put32 e (c.f32 v))
   | _ => none
@@ -49,12 +49,12 @@ def asciiPrint (c : Coding α) (v : α) : String × String → Option Bytes
   | ("AppendInt 10", "(int64 (math.Round (* (math.Max 0 (math.Min 1 v)) 255)))") => some (showNat (c.u8 v).toNat)
   | ("AppendInt 10", "(int64 v)") => some (c.showI v)
   | ("AppendFloat 'f' -1 64", "v") => some (c.showF v)
-  -- 3- / 4-vector ASCII writers: `.Clamp(0, 1).Scale(255).Round()`, componentwise
+  -- 2- / 3- / 4-vector ASCII writers: `.Clamp(0, 1).Scale(255).Round()`, componentwise
   | ("AppendInt 10", "(int64 (Round (Scale 255 (Clamp 0 1 v))))") => some (showNat (c.u8 v).toNat)
   | _ => none
 
 /-- reading of the binary scalar reader's loads: Go expression in the bytes `wire` at the reader's offset -/
-def binLoad (c : Coding α) (e : Endian) (buf : Bytes) (off : Nat) : String → Option (R α)
+def binLoad (c : Coding α) (e : Endian) (dim : Nat) (buf : Bytes) (off : Nat) : String → Option (R α)
   | "(/ (float64 (byte wire)) 255)" =>
       some (match buf[off]? with | some b => .ok (c.div255 (c.ofInt b.toNat)) | none => .error .panic)
   | "(float64 (int32 (u32 wire)))" =>
@@ -63,9 +63,10 @@ def binLoad (c : Coding α) (e : Endian) (buf : Bytes) (off : Nat) : String → 
       some (match get32 e (buf.drop off) with | some u => .ok (c.unf32 u) | none => .error .panic)
   | "(math.Float64frombits (u64 wire))" =>
       some (match get64 e (buf.drop off) with | some u => .ok (c.unf64 u) | none => .error .panic)
-  -- 3- / 4-vector readers: `vectorN.New(…).DivByConstant(255)` / `.ToFloat64()`, componentwise (vector3 / vector4 divide)
+  -- 2- / 3- / 4-vector readers: `vectorN.New(…).DivByConstant(255)` / `.ToFloat64()`, componentwise; `DivByConstant` of
+  -- vector3 / vector4 divides, that of vector2 multiplies by the reciprocal: `Coding.norm8 dim`
   | "(DivByConstant 255 (float64 (byte wire)))" =>
-      some (match buf[off]? with | some b => .ok (c.div255 (c.ofInt b.toNat)) | none => .error .panic)
+      some (match buf[off]? with | some b => .ok (c.norm8 dim (c.ofInt b.toNat)) | none => .error .panic)
   | "(ToFloat64 (int32 (u32 wire)))" =>
       some (match get32 e (buf.drop off) with | some u => .ok (c.ofInt (toInt32 u)) | none => .error .panic)
   | "(ToFloat64 (math.Float32frombits (u32 wire)))" =>
@@ -91,7 +92,7 @@ theorem encScalarAscii_from_source (c : Coding α) (t : SType) (v : α) :
 /-- `decScalarBin` at dimension 1 is `builtVector1PropertyReader.Read`, case by case -/
 theorem decScalarBin_from_source (c : Coding α) (e : Endian) (t : SType) (buf : Bytes) (off : Nat) :
     decScalarBin c e 1 t buf off =
-      match (rowOf PlyValues.v1BinRead t).bind (binLoad c e buf off) with
+      match (rowOf PlyValues.v1BinRead t).bind (binLoad c e 1 buf off) with
       | some r => r
       | none => .error .panic := by
   cases t <;> rfl
@@ -100,10 +101,10 @@ theorem decScalarBin_from_source (c : Coding α) (e : Endian) (t : SType) (buf :
 theorem value_tables_read_from_source :
     (∀ r ∈ PlyValues.v1BinWrite, (∀ n ∈ r.1, n ∈ allSTypes.map constOf) ∧ (binStore PlyLemmas.toyCoding .le 0 r.2).isSome) ∧
     (∀ r ∈ PlyValues.v1AsciiWrite, (∀ n ∈ r.1, n ∈ allSTypes.map constOf) ∧ (asciiPrint PlyLemmas.toyCoding 0 r.2).isSome) ∧
-    (∀ r ∈ PlyValues.v1BinRead, (∀ n ∈ r.1, n ∈ allSTypes.map constOf) ∧ (binLoad PlyLemmas.toyCoding .le [] 0 r.2).isSome) := by
+    (∀ r ∈ PlyValues.v1BinRead, (∀ n ∈ r.1, n ∈ allSTypes.map constOf) ∧ (binLoad PlyLemmas.toyCoding .le 1 [] 0 r.2).isSome) := by
   decide
 
-/-! ### the 3- and 4-vector writers and readers (`writer_vector{3,4}.go`, `reader_vector{3,4}.go`)
+/-! ### the 2-, 3- and 4-vector writers and readers (`writer_vector{2,3,4}.go`, `reader_vector{2,3,4}.go`)
 
 The model writes and reads a vector property component by component with the SAME per-type functions as a scalar
 (`encRecordBin` / `encRecordAscii` over `writerTypes`, `Built.readBin` over the component offsets).  The regenerated tables
@@ -113,42 +114,42 @@ list, per `case`, one store / print / load per component; vector-library methods
 
 def compsOf (n : Nat) : List String := ["X", "Y", "Z", "W"].take n
 
-/-- binary 3- / 4-vector writers: for every type, component `k` (X, Y, Z[, W] in this order) is stored at byte offset
+/-- binary 2- / 3- / 4-vector writers: for every type, component `k` (X, Y, Z[, W] in this order) is stored at byte offset
 `k · size` of the record buffer with exactly the bytes `encScalarBin` produces; unimplemented types panic -/
 theorem vecBinWrite_from_source (c : Coding α) (e : Endian) (t : SType) (v : α) :
-    ∀ p ∈ [(3, PlyValues.v3BinWrite), (4, PlyValues.v4BinWrite)],
+    ∀ p ∈ [(2, PlyValues.v2BinWrite), (3, PlyValues.v3BinWrite), (4, PlyValues.v4BinWrite)],
       (rowOf p.2 t).map (fun st => st.map (fun s => (s.1, s.2.1, binStore c e v (s.2.2.1, s.2.2.2))))
         = match encScalarBin c e t v with
           | .ok bs => some ((compsOf p.1).zipIdx.map (fun x => (x.2 * t.size, x.1, some bs)))
           | .error _ => none := by
   intro p hp
   simp only [List.mem_cons, List.not_mem_nil, or_false] at hp
-  rcases hp with rfl | rfl <;> cases t <;> rfl
+  rcases hp with rfl | rfl | rfl <;> cases t <;> rfl
 
-/-- ASCII 3- / 4-vector writers (the `UChar` case falls through into the integer prints after rescaling): every component
+/-- ASCII 2- / 3- / 4-vector writers (the `UChar` case falls through into the integer prints after rescaling): every component
 is printed with exactly the text `encScalarAscii` produces, components separated by one blank -/
 theorem vecAsciiWrite_from_source (c : Coding α) (t : SType) (v : α) :
-    ∀ p ∈ [(3, PlyValues.v3AsciiWrite), (4, PlyValues.v4AsciiWrite)],
+    ∀ p ∈ [(2, PlyValues.v2AsciiWrite), (3, PlyValues.v3AsciiWrite), (4, PlyValues.v4AsciiWrite)],
       (rowOf p.2 t).map (fun pr => pr.map (fun s => (s.1, asciiPrint c v (s.2.1, s.2.2))))
         = match encScalarAscii c t v with
           | .ok bs => some ((compsOf p.1).map (fun cn => (cn, some bs)))
           | .error _ => none := by
   intro p hp
   simp only [List.mem_cons, List.not_mem_nil, or_false] at hp
-  rcases hp with rfl | rfl <;> cases t <;> rfl
+  rcases hp with rfl | rfl | rfl <;> cases t <;> rfl
 
-/-- binary 3- / 4-vector readers: every component is decoded, at its own offset field, by `decScalarBin` at that dimension
+/-- binary 2- / 3- / 4-vector readers: every component is decoded, at its own offset field, by `decScalarBin` at that dimension
 (`uchar`: `/ 255`); the types without a `case` panic in the source and are errors of `decScalarBin` -/
 theorem vecBinRead_from_source (c : Coding α) (e : Endian) (t : SType) (buf : Bytes) (off : Nat) :
-    ∀ p ∈ [(3, PlyValues.v3BinRead), (4, PlyValues.v4BinRead)],
-      (rowOf p.2 t).map (fun ld => ld.map (fun s => (s.1, binLoad c e buf off s.2)))
+    ∀ p ∈ [(2, PlyValues.v2BinRead), (3, PlyValues.v3BinRead), (4, PlyValues.v4BinRead)],
+      (rowOf p.2 t).map (fun ld => ld.map (fun s => (s.1, binLoad c e p.1 buf off s.2)))
         = match t with
           | .uchar | .int | .float | .double =>
             some ((compsOf p.1).map (fun cn => (cn, some (decScalarBin c e p.1 t buf off))))
           | _ => none := by
   intro p hp
   simp only [List.mem_cons, List.not_mem_nil, or_false] at hp
-  rcases hp with rfl | rfl <;> cases t <;> rfl
+  rcases hp with rfl | rfl | rfl <;> cases t <;> rfl
 
 theorem decScalarBin_unimplemented (c : Coding α) (e : Endian) (dim : Nat) (t : SType) (buf : Bytes) (off : Nat)
     (h : t ∉ [SType.uchar, .int, .float, .double]) : decScalarBin c e dim t buf off = .error .panic := by
